@@ -109,6 +109,8 @@ def direct(
         g = graphs.build(SHARD["sk"], U, graphs.V([i0, i1, i2, i3, i4, i5, i6, i7], [c0, c1, c2, c3], [s0, s1, s2, s3, s4, s5, s6, s7]), SHARD.get("lens"))
     except graphs.Skip:
         return True
+    # a first instantiation must not influence the second one
+    g.root.instance(DirectoryContext(Path("/xvctx")))
     calls.reset()
     store = ObjectStore()
     inst = g.root.instance(DirectoryContext(Path("/xvctx")), objects=store)
@@ -175,6 +177,9 @@ def via_params(
     if not g.root.__xpm__._sealed:
         graphs.dry_submit(g.root, init_tasks=inits)
     objects = g.root.__xpm__.__get_objects__([], SerializationContext())
+    # a first load of the same parameter file in this process must not
+    # influence the second one (state kept between loads)
+    ConfigInformation.fromParameters(objects, as_instance=True)
     calls.reset()
     task = ConfigInformation.fromParameters(objects, as_instance=True)
     log_before_body = list(calls.LOG)
